@@ -419,6 +419,16 @@ func genA(t *tape.Tape) []world.Op {
 	return world.GenProgram(t, world.GenCfg{MaxItems: 8, Abstract: true, EncOnly: true, Observers: true, Dirty: true})
 }
 
+// genBFrom draws the second use: usually an unrelated read-before-write
+// program, one time in four the first use's own template with a few
+// arguments changed.
+func genBFrom(t *tape.Tape, a []world.Op) []world.Op {
+	if len(a) > 0 && t.Chance(1, 4) {
+		return world.Perturb(t, a)
+	}
+	return genB(t)
+}
+
 func genB(t *tape.Tape) []world.Op {
 	return world.GenProgram(t, world.GenCfg{MaxItems: 6, Abstract: true, EncOnly: true, ForceReset: true, ReadFirst: true})
 }
@@ -465,7 +475,7 @@ func c17Run(ctx *Ctx, t *tape.Tape) *report.Violation {
 		}
 		hiBefore := t.Chance(1, 4)
 		last := rs[len(rs)-1]
-		b := genB(t)
+		b := genBFrom(t, last.a)
 		v := encReuse(ctx, t, last.a, b, last.cut, last.cause, func(e *encode.Encoder) {
 			e.HighResolutionCoordinates = hiBefore
 			for _, r := range rs[:len(rs)-1] {
@@ -485,7 +495,8 @@ func c17Run(ctx *Ctx, t *tape.Tape) *report.Violation {
 		return sig(v)
 
 	case c17EncEnum:
-		a, b := genA(t), genB(t)
+		a := genA(t)
+		b := genBFrom(t, a)
 		if len(a) > 80 && ctx.Tier != "thorough" {
 			a = a[:80]
 		}
@@ -515,7 +526,8 @@ func c17Run(ctx *Ctx, t *tape.Tape) *report.Violation {
 			rect2 = &r2
 		}
 		if mode == c17RendEnum {
-			a, b := genA(t), genB(t)
+			a := genA(t)
+			b := genBFrom(t, a)
 			if len(a) > 80 && ctx.Tier != "thorough" {
 				a = a[:80]
 			}
@@ -547,7 +559,7 @@ func c17Run(ctx *Ctx, t *tape.Tape) *report.Violation {
 			cuts = append(cuts, biasedCut(t, a))
 			causes = append(causes, []abortCause{causeStop, causeStop, causeDecodeErr, causeDecodeErr, causeComplete}[t.Intn(5)])
 		}
-		b := genB(t)
+		b := genBFrom(t, as[len(as)-1])
 		v := rendReuse(ctx, t, as, cuts, causes, b, rect, viaBytes, rect2)
 		if v == nil && st != nil && rounds > 1 {
 			st.Add("probe_multiple_abort_restart_rounds", 1)
